@@ -80,7 +80,12 @@ def gen_cases(rng, tier):
     cases = [gen_case(rng, tier) for _ in range(n)]
     cases.append({"is_fd": True, "verbose": True, "sources": [{"arg": "empty.dat", "content": {"hex": ""}}, {"arg": "noext", "content": {"pat": "41", "len": 300}},
                                                               {"arg": "full.bin", "content": {"rand": 3, "len": FULL - 2 * 2040}}, {"arg": "next.txt", "content": {"pat": "42", "len": 2041}}]})
-    return cases, {"random": n, "fixed": 1}
+    # a file needing all 157 blocks of a side, first on a side / after --eos / after a spill; and one block less
+    for is_fd in (True, False):
+        cases.append({"is_fd": is_fd, "verbose": is_fd, "sources": [{"arg": "full.dat", "content": {"rand": 11, "len": FULL}}, {"eos": "--eos"},
+                                                                   {"arg": "small.txt", "content": {"pat": "42", "len": 300}}, {"arg": "most.bin", "content": {"rand": 12, "len": FULL - 2040}},
+                                                                   {"arg": "edge.bin", "content": {"rand": 13, "len": FULL - 2039}}]})
+    return cases, {"random": n, "fixed": 3}
 
 
 def flow(case, ctx, cd):
